@@ -16,7 +16,12 @@ func init() {
 
 func runC17(c *Ctx) {
 	L := c.L
-	c.checkNormaliserSums("normaliser-sum", "distance/protein")
+	if c.Thorough() {
+		// thorough tier: every package of the module (frequency and weight tables elsewhere)
+		c.checkNormaliserSums("normaliser-sum")
+	} else {
+		c.checkNormaliserSums("normaliser-sum", "distance/protein")
+	}
 	c.checkLikelihoodSumComplete("likelihood-sum-complete")
 	c.checkDenseSymmetry()
 	c.checkDistRange()
